@@ -116,8 +116,29 @@ pub fn new_ctx() -> Ctx {
 }
 
 /// Run one line through the real parser and the reference model.
+/// What of the parser state is observable through the hook (pending group + list lengths).
+fn observe(state: &TimingPointsState) -> (u64, bool, bool, bool, bool, usize, usize, usize, usize) {
+    let p = hooks::state_parts(state);
+    (
+        p.pending_control_points_time.to_bits(),
+        p.pending_timing_point.is_some(),
+        p.pending_difficulty_point.is_some(),
+        p.pending_effect_point.is_some(),
+        p.pending_sample_point.is_some(),
+        p.control_points.timing_points.len(),
+        p.control_points.difficulty_points.len(),
+        p.control_points.effect_points.len(),
+        p.control_points.sample_points.len(),
+    )
+}
+
 pub fn feed(ctx: &mut Ctx, vals: LineVals, template: &'static str) {
+    let before = observe(&ctx.state);
     let res = TimingPoints::parse_timing_points(&mut ctx.state, tok_line(template));
+    if res.is_err() {
+        // C06: a rejected line neither flushes nor touches the pending group
+        assert!(observe(&ctx.state) == before, "a rejected timing line changed the parser state");
+    }
     match line_points(&vals, ctx.mode, ctx.bank, ctx.volume) {
         Some(pts) => {
             assert!(res.is_ok(), "a line the legacy rules accept was rejected");
@@ -206,6 +227,23 @@ oracle_proof!(c12_one_inherited_t10, 32, one_line(10.0, Shape::FullInherited, "1
 oracle_proof!(c12_one_short_tm5, 32, one_line(-5.0, Shape::Short, "-5,$b"));
 // @verif property=C12,C06,C01 tier=quick timeout=900 mem=16 bounds="1 line '20,$b,0,$d' (time signature text '0' keeps 4/4; four fields)"
 oracle_proof!(c12_one_zerosig_t20, 32, one_line(20.0, Shape::ZeroSig, "20,$b,0,$d"));
+
+/// A valid line, then a line at ANOTHER time that is always rejected (unparsable beat length):
+/// the pending group of the first line must stay pending.
+fn reject_after_valid() {
+    let mut ctx = new_ctx();
+    let v1 = seed_line(10.0, Shape::Short, b'b');
+    feed(&mut ctx, v1, "10,$b");
+    let before = observe(&ctx.state);
+    let res = TimingPoints::parse_timing_points(&mut ctx.state, "20,x,4,1,0,100,1,0");
+    assert!(res.is_err());
+    assert!(observe(&ctx.state) == before, "a rejected timing line changed the parser state");
+    kani::cover!(before.1, "a timing point was pending when the bad line arrived");
+    finish(ctx);
+}
+
+// @verif property=C12,C06 tier=quick timeout=1200 mem=16 bounds="valid line '10,$b', then the always-rejected line '20,x,...' at another time: pending group and lists untouched" covers=4
+oracle_proof!(c12_reject_after_valid, 32, reject_after_valid());
 
 // ---- two lines, same time (one group) ----
 // @verif property=C12 tier=quick timeout=1500 mem=20 bounds="2 lines at time 10: timing change (short line) then inherited (full line, all numeric fields symbolic)"
